@@ -29,6 +29,9 @@ var c09Insertions = []string{
 }
 
 var c09Standalone = []string{
+	// rejected by a method of the ACTIVE visitor (AtomVisitor.EnterOC_ShortestPathPattern), not by BaseVisitor
+	"MATCH (a), (b) RETURN shortestPath((a)-[*]->(b))", "MATCH (a), (b) WHERE length(allShortestPaths((a)-[*..3]->(b))) > 1 RETURN a",
+	"MATCH p = shortestPath((a)-[*]->(b)) RETURN p",
 	"CALL db.labels()", "CALL db.labels", "CALL db.labels() YIELD label RETURN label", "CALL dbms.procedures() YIELD name, signature",
 	"CREATE INDEX ON :Person(name)", "DROP INDEX ON :Person(name)", "CREATE CONSTRAINT ON (p:Person) ASSERT p.name IS UNIQUE",
 	"DROP CONSTRAINT ON (p:Person) ASSERT p.name IS UNIQUE", "CREATE CONSTRAINT ON (p:Person) ASSERT exists(p.name)",
@@ -196,7 +199,8 @@ func (r *c09Runner) Step(t []string, raw string) string {
 			r.stats.Inc("translated")
 		}
 	}
-	tree, nsyn := antlrTreeSexp(q, false)
+	// typed leaves: the model walks the tree with the listener model of C08 (guards look at the node's tokens)
+	tree, nsyn := antlrTreeTyped(q)
 	_ = nsyn
 	// context lifecycle: a default context that is no longer the most recently created one must filter too
 	older := frontend.DefaultCypherContext()
